@@ -1458,7 +1458,8 @@ int safec_vsnprintf_s(out_fct_type out, const char *funcname, char *buffer,
             }
             op = p;
             // string output
-            while ((*p != 0) && (!(flags & FLAGS_PRECISION) || precision--)) {
+            // the precision first: the byte behind the last one is not read
+            while ((!(flags & FLAGS_PRECISION) || precision--) && (*p != 0)) {
                 rc = out(*(p++), buffer, idx++, bufsize);
                 if (unlikely(rc < 0)) { // eg.  EBADF write to closed file
                     if (flags & FLAGS_LONG)
